@@ -7,7 +7,9 @@
 //!      transliteration the theorems are about (`prelude …` requests);
 //!  (3) generated F2/F3 programs with many `?`/`!` in every position against `Abra.Sem`;
 //!  (4) every try lowering found in the real unoptimised assembly of those programs against `tryCode`
-//!      (`trylower …` requests; parameters read from the dump, the shape from the model).
+//!      (`trylower …` requests; parameters read from the dump, the shape from the model);
+//!  (0) the 112 mixed-Try programs of harness/src/bg9cov.rs (Rust oracle) and the checker's verdict on each of them
+//!      against the Lean rule `tryAccepted` (`trycompat …` requests); (1b) 16 task programs (pending host call vs a failing `!`).
 #[path = "../bg9cov.rs"]
 mod bg9cov;
 #[path = "../progen.rs"]
